@@ -96,6 +96,11 @@ def scan@(lines@):
     def join@(self, tokens@):
         return "".join(tokens@)
 '''),
+    ("script", "", '''#!/usr/bin/env python3
+def tool@(qty@):
+    amount@ = qty@ * 91
+    return amount@ + 73
+'''),
     ("clean", "py", '''def ident@(x@):
     return x@
 '''),
@@ -133,8 +138,11 @@ def word(i: int) -> str:
     return "q" + s
 
 
-def build(n: int, cross: list[list[int]], kinds: list[str] | None = None) -> list[tuple[str, str]]:
+def build(n: int, cross: list[list[int]], layout: str = "flat") -> list[tuple[str, str]]:
     """Return [(relative path, content)] for files 1..n.
+
+    layout "flat": unique base names in one directory; "samename": one directory per file, every
+    file called mod.<ext> (same base name everywhere, as with __init__.py / mod.rs / index.ts).
 
     cross[j] lists the 1-based file numbers of group j; even groups are DRY duplicates, odd groups
     stringly-typed repeated validations.
@@ -144,16 +152,21 @@ def build(n: int, cross: list[list[int]], kinds: list[str] | None = None) -> lis
         for f in grp:
             member[f] = ("dry" if g % 2 == 0 else "str", g)
     out = []
+
+    def path(f, name, ext):
+        dot = "." if ext else ""
+        return f"m{f:02d}/mod{dot}{ext}" if layout == "samename" else f"f{f:02d}_{name}{dot}{ext}"
+
     for f in range(1, n + 1):
         if f in member:
             kind, g = member[f]
             if kind == "dry":
-                out.append((f"f{f:02d}_dup.py", dry_member(f, g)))
+                out.append((path(f, "dup", "py"), dry_member(f, g)))
             else:
-                out.append((f"f{f:02d}_str.py", stringly_member(f, g)))
+                out.append((path(f, "str", "py"), stringly_member(f, g)))
             continue
         name, ext, tmpl = PER_FILE[(f - 1) % len(PER_FILE)]
-        out.append((f"f{f:02d}_{name}.{ext}", tmpl.replace("@", word(f))))
+        out.append((path(f, name, ext), tmpl.replace("@", word(f))))
     return out
 
 
